@@ -117,6 +117,9 @@ def findlabels_310(code: bytes, opc):
                 if opc.version_tuple >= (3, 13):
                     cachesize = _get_cache_size_313(opc.opname[op])
                     label += 2 * cachesize
+                elif opc.version_tuple >= (3, 12) and opc.opname[op] in ("FOR_ITER", "SEND"):
+                    # the only 3.12 jumps with an inline cache entry
+                    label += 2
             elif op in opc.JABS_OPS:
                 label = arg * 2
             else:
